@@ -78,13 +78,16 @@ pub fn cut(payload: &[u8], cuts: &[usize]) -> Vec<Vec<u8>> {
 pub fn even_cuts(len: usize, k: usize) -> Vec<usize> { (1 .. k).map(|i| len * i / k).collect() }
 
 /// bzip2-compress with python3's stdlib (cached per payload).
-pub fn bz2_compress(data: &[u8]) -> Vec<u8> {
+pub fn bz2_compress(data: &[u8]) -> Vec<u8> { bz2_compress_level(data, 9) }
+
+/// bzip2-compress with block size `level` x 100 kB.
+pub fn bz2_compress_level(data: &[u8], level: u8) -> Vec<u8> {
     use std::io::Write;
     use std::process::{Command, Stdio};
     let armed = crate::alloc::pause();
     let mut child = Command::new("python3")
         .arg("-c")
-        .arg("import sys,bz2; sys.stdout.buffer.write(bz2.compress(sys.stdin.buffer.read()))")
+        .arg(format!("import sys,bz2; sys.stdout.buffer.write(bz2.compress(sys.stdin.buffer.read(), {}))", level.clamp(1, 9)))
         .stdin(Stdio::piped())
         .stdout(Stdio::piped())
         .spawn()
